@@ -13,7 +13,7 @@ PID = 'C15'
 LEVEL = 'fault_enumeration'
 MOD = 'sim.scen_c15'
 
-RETYPE_VALUES = [None, True, 0, -1, 7, 10 ** 6, 1.5, '', 'x', [], {}, [1],
+RETYPE_VALUES = [None, True, 0, -1, 7, 10 ** 6, 10 ** 30, 1.5, '', 'x', [], {}, [1],
                  {'a': 1}, 'l1\nl2 <br>\n"q\'&amp;',
                  'C:\\dir \\emph{x} \\1 \\g<0> %s {0} $&',
                  float('inf'), float('nan'), '5', False, [[]], -0.0]
@@ -199,14 +199,10 @@ def enumerate_single_faults(answer_obj, text, cfg):
             faults.append({'kind': 'retype_field', 'path': p, 'value': v})
     n = len(text)
     for p, v in int_paths(answer_obj):
-        # 2**31 carets/blanks of a text report would be 2 GiB of output: the
-        # excerpt fields get 10**6 as their "huge" value (bound of the
-        # simulation, see DESIGN.md §4 C15)
-        # (TextGears: the shell derives the excerpt from offset/length itself)
-        huge = 10 ** 6 if ('context' in p or 'errors' in p) else 2 ** 31
+        huge = 2 ** 31
         for nv in sorted({v - 1, v + 1, v * 2, n - 1, n, n + 1, n + 2, n + 3,
-                          n + 7, 2 * n, -n, huge, -huge, n - v, n - v + 1,
-                          n - v + 2}):
+                          n + 7, 2 * n, -n, huge, -huge, 10 ** 30, -10 ** 30,
+                          2 ** 63, n - v, n - v + 1, n - v + 2}):
             if nv != v:
                 faults.append({'kind': 'retype_field', 'path': p, 'value': nv,
                                'perturb': True})
